@@ -45,6 +45,44 @@ func c19(c *Ctx) {
 		r.Break("timesafeguard.DisableTimesafeguard / ElectionTimeout not found")
 		return
 	}
+	// isET: the expression names ElectionTimeout — the constant itself, or a constant of the package that is declared as
+	// nothing but that name (`const maxDrift = ElectionTimeout`)
+	isETObj := func(o types.Object) bool {
+		if o == etObj {
+			return true
+		}
+		cst, ok := o.(*types.Const)
+		if !ok || cst.Pkg() == nil || cst.Pkg() != etObj.Pkg() {
+			return false
+		}
+		found := false
+		for _, f := range c.P.Pkg("timesafeguard").Syntax {
+			ast.Inspect(f, func(n ast.Node) bool {
+				vs, ok := n.(*ast.ValueSpec)
+				if !ok {
+					return true
+				}
+				for i, nm := range vs.Names {
+					if c.P.Pkg("timesafeguard").TypesInfo.Defs[nm] == o && i < len(vs.Values) {
+						if id, ok := ast.Unparen(vs.Values[i]).(*ast.Ident); ok && c.P.Pkg("timesafeguard").TypesInfo.Uses[id] == etObj {
+							found = true
+						}
+					}
+				}
+				return true
+			})
+		}
+		return found
+	}
+	isETExpr := func(info *types.Info, e ast.Expr) bool {
+		switch x := ast.Unparen(e).(type) {
+		case *ast.Ident:
+			return info.Uses[x] != nil && isETObj(info.Uses[x])
+		case *ast.SelectorExpr:
+			return info.Uses[x.Sel] != nil && isETObj(info.Uses[x.Sel])
+		}
+		return false
+	}
 	isDisableFlag := func(info *types.Info, e ast.Expr) bool {
 		st, ok := ast.Unparen(e).(*ast.StarExpr)
 		if !ok {
@@ -151,6 +189,115 @@ func c19(c *Ctx) {
 		}
 	}
 
+	// noOffenders: the fact says len(X) == 0 for a local slice X that is appended to exactly under the refusing test, once per
+	// measurement of the filtered slice
+	noOffenders := func(info *types.Info, g *cfgx.Graph, fi *load.FuncInfo, f cfgx.Fact) bool {
+		be, ok := ast.Unparen(f.Expr).(*ast.BinaryExpr)
+		if !ok || f.Tag != nil {
+			return false
+		}
+		lc, ok := ast.Unparen(be.X).(*ast.CallExpr)
+		if !ok || astx.Builtin(info, lc) != "len" || len(lc.Args) != 1 {
+			return false
+		}
+		zero, isC := astx.ConstInt(info, be.Y)
+		if !isC || zero != 0 || !((be.Op == token.EQL && f.Val) || (be.Op == token.NEQ && !f.Val) || (be.Op == token.GTR && !f.Val)) {
+			return false
+		}
+		xid, ok := ast.Unparen(lc.Args[0]).(*ast.Ident)
+		if !ok {
+			return false
+		}
+		xo := astx.Obj(info, xid)
+		nApp := 0
+		for _, v := range g.Nodes() {
+			as, isAs := v.Node.(*ast.AssignStmt)
+			if !isAs || len(as.Lhs) != 1 || len(as.Rhs) != 1 {
+				continue
+			}
+			l, isID := as.Lhs[0].(*ast.Ident)
+			if !isID || astx.Obj(info, l) != xo {
+				continue
+			}
+			app, isCall := ast.Unparen(as.Rhs[0]).(*ast.CallExpr)
+			if !isCall || astx.Builtin(info, app) != "append" {
+				return false // assigned otherwise (reset, re-sliced): not a plain collection
+			}
+			nApp++
+			// under the refusing test …
+			var test ast.Expr
+			for _, ft := range g.FactsAt(v.ID) {
+				b2, ok := ast.Unparen(ft.Expr).(*ast.BinaryExpr)
+				if !ok || ft.Tag != nil {
+					continue
+				}
+				if cc, ok := ast.Unparen(b2.X).(*ast.CallExpr); ok {
+					if fn := astx.Callee(info, cc); fn != nil && fname(fn) == "worstCaseDrift" && isETExpr(info, b2.Y) && ((b2.Op == token.GEQ && ft.Val) || (b2.Op == token.LSS && !ft.Val)) {
+						test = ft.Expr
+					}
+				}
+			}
+			if test == nil {
+				return false
+			}
+			// … which is the first statement of a loop over a local slice that only receives answered measurements
+			var loop *ast.RangeStmt
+			ast.Inspect(fi.Body(), func(n ast.Node) bool {
+				if rs, ok := n.(*ast.RangeStmt); ok && rs.Body.Pos() <= as.Pos() && as.End() <= rs.Body.End() {
+					loop = rs
+				}
+				return true
+			})
+			if loop == nil || len(loop.Body.List) == 0 {
+				return false
+			}
+			ifs, ok := loop.Body.List[0].(*ast.IfStmt)
+			if !ok || ifs.Init != nil || !(ifs.Cond.Pos() <= test.Pos() && test.End() <= ifs.Cond.End()) {
+				return false
+			}
+			if _, isBin := ast.Unparen(ifs.Cond).(*ast.BinaryExpr); !isBin || ast.Unparen(ifs.Cond) != ast.Unparen(test) {
+				return false
+			}
+			sid, ok := ast.Unparen(loop.X).(*ast.Ident)
+			if !ok {
+				return false
+			}
+			so := astx.Obj(info, sid)
+			nS := 0
+			for _, u := range g.Nodes() {
+				a2, isAs := u.Node.(*ast.AssignStmt)
+				if !isAs || len(a2.Lhs) != 1 || len(a2.Rhs) != 1 {
+					continue
+				}
+				l2, isID := a2.Lhs[0].(*ast.Ident)
+				if !isID || astx.Obj(info, l2) != so {
+					continue
+				}
+				ap2, isCall := ast.Unparen(a2.Rhs[0]).(*ast.CallExpr)
+				if !isCall || astx.Builtin(info, ap2) != "append" {
+					return false
+				}
+				nS++
+				answered := false
+				for _, ft := range g.FactsAt(u.ID) {
+					if ft.Tag == nil && !ft.Val {
+						if cc, isC := ast.Unparen(ft.Expr).(*ast.CallExpr); isC {
+							if fn := astx.Callee(info, cc); fn != nil && fname(fn) == "IsZero" {
+								answered = true
+							}
+						}
+					}
+				}
+				if !answered {
+					return false
+				}
+			}
+			if nS == 0 {
+				return false
+			}
+		}
+		return nApp > 0
+	}
 	// Z2
 	{
 		info := swn.Info()
@@ -172,6 +319,12 @@ func c19(c *Ctx) {
 				}
 				if isDisableFlag(info, f.Expr) {
 					ok, why = true, "-disable_timesafeguard set"
+				}
+				// … or the list of offending measurements is empty: the same judgement spelled as "collect the offenders,
+				// succeed if there are none" — the list gets an entry for every filtered measurement whose bound reaches the
+				// election timeout (the test is the first thing the loop over the filtered slice does)
+				if noOffenders(info, g, swn, f) {
+					ok, why = true, "the list of measurements with worstCaseDrift() >= ElectionTimeout is empty"
 				}
 			}
 			r.Check(ok, "C19.Z2", swn.Name(), "return nil", c.P.Pos(rs.Pos()), why,
@@ -503,7 +656,7 @@ func c19(c *Ctx) {
 					continue
 				}
 				if cc, ok := ast.Unparen(be.X).(*ast.CallExpr); ok {
-					if fn := astx.Callee(info, cc); fn != nil && fname(fn) == "worstCaseDrift" && refersTo(info, be.Y, pathTimesafe, "ElectionTimeout") {
+					if fn := astx.Callee(info, cc); fn != nil && fname(fn) == "worstCaseDrift" && isETExpr(info, be.Y) {
 						if (be.Op == token.GEQ && f.Val) || (be.Op == token.LSS && !f.Val) {
 							okPred = true
 						}
@@ -662,6 +815,67 @@ func c19(c *Ctx) {
 				continue
 			}
 			nEnc++
+			// … and so is the list of peers the joining node goes on to measure: it is what raft says now, not something the
+			// API kept from an earlier request (a follower never sees the join that would invalidate its copy)
+			if pv := litField(cl, "Peers"); pv != nil {
+				okPeers, via := true, ""
+				// data dependence only (what the value is computed from; a test of some other field around an unrelated
+				// statement does not count): the expression, and for every local in it what is assigned to it or its elements
+				seenObj := map[types.Object]bool{}
+				var visit func(e ast.Expr, depth int)
+				visit = func(e ast.Expr, depth int) {
+					if e == nil || depth > 5 {
+						return
+					}
+					ast.Inspect(e, func(m ast.Node) bool {
+						switch x := m.(type) {
+						case *ast.FuncLit:
+							return false
+						case *ast.SelectorExpr:
+							if fv := astx.FieldSel(info, x); fv != nil && fv.Pkg() != nil && load.ShortPkg(fv.Pkg().Path()) == "api" && fv.Name() != "raftNode" {
+								if _, isHTTP := info.TypeOf(x.X).Underlying().(*types.Pointer); isHTTP || astx.NamedOf(info.TypeOf(x.X)) != nil {
+									if n := astx.NamedOf(derefType(info.TypeOf(x.X))); n != nil && n.Obj().Name() == "HTTP" {
+										okPeers, via = false, fv.Name()
+									}
+								}
+							}
+						case *ast.Ident:
+							o, isVar := info.Uses[x].(*types.Var)
+							if !isVar || o.IsField() || seenObj[o] || !(hs.Body().Pos() <= o.Pos() && o.Pos() <= hs.Body().End()) {
+								return true
+							}
+							seenObj[o] = true
+							ast.Inspect(hs.Body(), func(k ast.Node) bool {
+								switch y := k.(type) {
+								case *ast.AssignStmt:
+									for i, l := range y.Lhs {
+										b := astx.BaseIdent(l)
+										if b == nil || astx.Obj(info, b) != types.Object(o) {
+											continue
+										}
+										if len(y.Lhs) == len(y.Rhs) {
+											visit(y.Rhs[i], depth+1)
+										} else if len(y.Rhs) == 1 {
+											visit(y.Rhs[0], depth+1)
+										}
+									}
+								case *ast.RangeStmt:
+									for _, kv := range []ast.Expr{y.Key, y.Value} {
+										if kid, ok := kv.(*ast.Ident); ok && kv != nil && astx.Obj(info, kid) == types.Object(o) {
+											visit(y.X, depth+1)
+										}
+									}
+								}
+								return true
+							})
+						}
+						return true
+					})
+				}
+				visit(pv, 0)
+				r.Check(okPeers, "C19.Z5", hs.Name(), "the reported peers are read from raft for this request", c.P.Pos(pv.Pos()), "the value depends on no field of the API but raftNode",
+					"the peer list of the status answer depends on the API's field "+via+": a copy kept between requests is stale on every node that did not handle the join — a node joining through it never measures the members added since")
+			}
 			okDirect := false
 			if ne, ok := ast.Unparen(se.X).(*ast.CallExpr); ok && len(ne.Args) == 1 {
 				if fn := astx.Callee(info, ne); fn != nil && fn.Name() == "NewEncoder" {
@@ -684,6 +898,131 @@ func c19(c *Ctx) {
 		}
 		if nEnc == 0 {
 			r.Break("C19.Z5: the JSON encoding of the status (with CurrentTime) was not found in handleStatus")
+		}
+	}
+	// Z3n: every peer has a slot of its own: the slice of measurements is made with one element per peer, and the index a
+	// measurement is stored under is the position of its peer in that same list (the key of the range over it). Asking the
+	// peers in batches and indexing by the position within the batch makes later batches overwrite earlier ones: a skewed
+	// peer's measurement is lost and its slot reads "did not answer"
+	if ct := c.P.Func("timesafeguard.collectTime"); ct != nil && ct.Body() != nil {
+		info := ct.Info()
+		var resObj types.Object
+		var sized ast.Expr
+		ast.Inspect(ct.Body(), func(n ast.Node) bool {
+			as, ok := n.(*ast.AssignStmt)
+			if !ok || len(as.Lhs) != 1 || len(as.Rhs) != 1 {
+				return true
+			}
+			mk, ok := ast.Unparen(as.Rhs[0]).(*ast.CallExpr)
+			if !ok || astx.Builtin(info, mk) != "make" || len(mk.Args) < 2 {
+				return true
+			}
+			if nm := astx.NamedOf(info.TypeOf(mk.Args[0])); nm != nil {
+				return true
+			}
+			sl, isSl := info.TypeOf(mk.Args[0]).Underlying().(*types.Slice)
+			if !isSl || astx.NamedOf(sl.Elem()) == nil || astx.NamedOf(sl.Elem()).Obj().Name() != "timeResult" {
+				return true
+			}
+			if lc, isLen := ast.Unparen(mk.Args[1]).(*ast.CallExpr); isLen && astx.Builtin(info, lc) == "len" && len(lc.Args) == 1 {
+				if id, isID := as.Lhs[0].(*ast.Ident); isID {
+					resObj, sized = astx.Obj(info, id), lc.Args[0]
+				}
+			}
+			return true
+		})
+		nSlot := 0
+		if resObj != nil {
+			parents := astx.Parents(ct.Body())
+			ast.Inspect(ct.Body(), func(n ast.Node) bool {
+				ix, isIx := n.(*ast.IndexExpr)
+				if !isIx {
+					return true
+				}
+				bid, isID := ast.Unparen(ix.X).(*ast.Ident)
+				if !isID || astx.Obj(info, bid) != resObj {
+					return true
+				}
+				// a slot that is written: assigned to, or handed out by address (results[idx] = r; measureInto(&results[idx], …))
+				var as ast.Node
+				switch p := parents[ast.Node(ix)].(type) {
+				case *ast.AssignStmt:
+					for _, l := range p.Lhs {
+						if ast.Unparen(l) == ast.Expr(ix) {
+							as = p
+						}
+					}
+				case *ast.UnaryExpr:
+					if p.Op == token.AND {
+						as = p
+					}
+				}
+				if as == nil {
+					return true
+				}
+				for once := true; once; once = false {
+					nSlot++
+					// the index: a range key, possibly handed to the goroutine literal as an argument
+					okSlot, why := false, "the index is not the position of the peer in the list the slice was sized by"
+					if iid, isI := ast.Unparen(ix.Index).(*ast.Ident); isI {
+						key := astx.Obj(info, iid)
+						var from ast.Node = as
+						// parameter of an enclosing literal that is called where it stands: follow to the argument
+						for p := parents[as]; p != nil; p = parents[p] {
+							lit, isLit := p.(*ast.FuncLit)
+							if !isLit {
+								continue
+							}
+							k := 0
+							for _, fld := range lit.Type.Params.List {
+								for _, nm := range fld.Names {
+									if info.Defs[nm] == key {
+										if call, isCall := parents[ast.Node(lit)].(*ast.CallExpr); isCall && k < len(call.Args) {
+											if aid, isA := ast.Unparen(call.Args[k]).(*ast.Ident); isA {
+												key, from = astx.Obj(info, aid), call
+											}
+										}
+									}
+									k++
+								}
+							}
+							break
+						}
+						for p := parents[from]; p != nil; p = parents[p] {
+							rs, isR := p.(*ast.RangeStmt)
+							if !isR {
+								continue
+							}
+							if kid, isK := rs.Key.(*ast.Ident); isK && rs.Key != nil && astx.Obj(info, kid) == key {
+								if astx.Same(info, rs.X, sized) {
+									// … and the list is still the one the slice was sized by: not reassigned in the function
+									reassigned := false
+									if sid, isS := ast.Unparen(sized).(*ast.Ident); isS {
+										for _, d := range defsOfIn(info, ct.Body(), astx.Obj(info, sid)) {
+											_ = d
+											reassigned = true
+										}
+									}
+									if !reassigned {
+										okSlot = true
+									} else {
+										why = "the list of peers is reassigned inside collectTime: positions in it no longer match the slots"
+									}
+								} else {
+									why = "the index is the key of a range over " + astx.Str(rs.X) + ", not over " + astx.Str(sized) + " which sized the slice"
+								}
+								break
+							}
+						}
+					}
+					r.Check(okSlot, "C19.Z3", ct.Name(), "every peer's measurement has its own slot", c.P.Pos(as.Pos()), "results[<range key over the list that sized results>]",
+						why+": measurements of different peers land in the same slot, a skewed peer's measurement is overwritten and the peer counts as silent")
+				}
+				return true
+			})
+		}
+		if nSlot == 0 {
+			r.Break("C19.Z3: no assignment to a slot of the measurements slice found in collectTime")
 		}
 	}
 	// Z3l: a peer whose request succeeded has its measurement stored: in collectTime's goroutine every path from the nil-error
@@ -970,6 +1309,26 @@ func c19(c *Ctx) {
 					continue
 				}
 				okNil, why := c.errNilAfterCallLit(info, lit, lg, v.ID, func(fn *types.Func, _ *ast.CallExpr) bool { return fn == gst.Obj })
+				// a slot that is given a value without a remote time (a literal that leaves Result unset: the peer's name for the
+				// log) is still the slot of a silent peer: the filter in front of timeInSync drops every entry whose Result is zero
+				if !okNil && len(as.Rhs) == 1 {
+					if cl, isLit := ast.Unparen(as.Rhs[0]).(*ast.CompositeLit); isLit && astx.NamedOf(info.TypeOf(cl)) != nil && astx.NamedOf(info.TypeOf(cl)).Obj().Name() == "timeResult" {
+						keyed, setsResult := len(cl.Elts) > 0, false
+						for _, el := range cl.Elts {
+							kv, isKV := el.(*ast.KeyValueExpr)
+							if !isKV {
+								keyed = false
+								continue
+							}
+							if k, isID := kv.Key.(*ast.Ident); isID && k.Name == "Result" {
+								setsResult = true
+							}
+						}
+						if (keyed || len(cl.Elts) == 0) && !setsResult {
+							okNil, why = true, "a literal without a remote time: ignored like an empty slot"
+						}
+					}
+				}
 				r.Check(okNil, "C19.Z3", ct.Name(), "slot filled only for answering peers", c.P.Pos(as.Pos()), why,
 					"collectTime stores a measurement although getServerTime failed: a peer that did not answer is not left as the zero value")
 			}
@@ -1081,13 +1440,7 @@ func c19(c *Ctx) {
 						return ok && astx.Callee(info, call) == wcd.Obj
 					}
 					isET := func(e ast.Expr) bool {
-						switch x := ast.Unparen(e).(type) {
-						case *ast.Ident:
-							return info.Uses[x] == etObj
-						case *ast.SelectorExpr:
-							return info.Uses[x.Sel] == etObj
-						}
-						return false
+						return isETExpr(info, e)
 					}
 					// refuse iff drift >= timeout
 					if isDrift(be.X) && isET(be.Y) && ((be.Op == token.GEQ && f.Val) || (be.Op == token.LSS && !f.Val)) {
